@@ -126,12 +126,16 @@ def clear (h : Hub) (id : String) : Hub × Outcome :=
   | none => (h, .noSuchPort)
   | some _ => (h.setExpr id none, .ok)
 
+/-- `core.ports.load`, first phase: the port object is created and registered at the end of `_ports_by_id`, without
+expression. -/
+def register (h : Hub) (id : String) (enabled : Bool) : Hub := ⟨h.ports ++ [⟨id, enabled, none⟩]⟩
+
 /-- `POST /ports`: a fresh virtual port, registered at the end of `_ports_by_id`, nothing persisted under its id
 (removal deleted it), enabled by `add_virtual_port`. -/
 def addPort (h : Hub) (id : String) : Hub × Outcome :=
   match h.get id with
   | some _ => (h, .duplicatePort)
-  | none => (⟨h.ports ++ [⟨id, true, none⟩]⟩, .ok)
+  | none => (register h id true, .ok)
 
 /-- `DELETE /ports/{id}`: `_ports_by_id.pop(id)`; the expressions of the other ports are left alone. -/
 def removePort (h : Hub) (id : String) : Hub × Outcome :=
@@ -215,5 +219,66 @@ def step (h : Hub) : Op → Hub × Outcome
 
 /-- The hub after a history of operations (whatever their outcomes). -/
 def run (h : Hub) (ops : List Op) : Hub := ops.foldl (fun acc op => (step acc op).1) h
+
+/-! ### Ports that are absent while their persisted record is kept
+
+`BasePort.remove(persisted_data=False)` (hub stop, a peripheral going away) unregisters a port but keeps its persisted
+record; `core.ports.load` for that id later registers it again and feeds the record through `load_from_data` →
+`set_attr('expression', …)` → `attr_set_expression` → `check_loops`. Meanwhile the other ports may have been given
+expressions referring to the absent id (an unregistered id is a dead end for the walk), so the record can hold the
+other half of a cycle: it must be — and is — checked again when it is loaded. -/
+
+structure Sys where
+  hub : Hub := Hub.empty
+  stash : List PortEntry := []       -- persisted records of the ports that are not registered, newest first
+
+def Sys.record (s : Sys) (id : String) : Option PortEntry := s.stash.find? fun p => p.id == id
+def Sys.dropRecord (s : Sys) (id : String) : List PortEntry := s.stash.filter fun p => !(p.id == id)
+
+/-- `core.ports.load([args of r.id])`: register, then `port.load()` = the persisted expression through the checked
+assignment (a refusal is logged and swallowed: the port comes back without expression). -/
+def loadRecord (h : Hub) (r : PortEntry) (enabled : Bool) : Hub := loadOne (register h r.id enabled) r
+
+inductive SOp
+  | hub (op : Op)
+  | unload (id : String)      -- save, then remove(persisted_data=False)
+  | load (id : String)        -- core.ports.load for an absent port that has a persisted record
+
+/-- `POST /ports`: when a persisted record exists under that id it is loaded (and the port is then enabled). -/
+def sAdd (s : Sys) (id : String) : Sys × Outcome :=
+  match s.hub.get id with
+  | some _ => (s, .duplicatePort)
+  | none =>
+    match s.record id with
+    | none => ({ s with hub := (addPort s.hub id).1 }, .ok)
+    | some r => ({ hub := loadRecord s.hub r true, stash := s.dropRecord id }, .ok)
+
+def sUnload (s : Sys) (id : String) : Sys × Outcome :=
+  match s.hub.get id with
+  | none => (s, .noSuchPort)
+  | some p => ({ hub := (removePort s.hub id).1, stash := p :: s.dropRecord id }, .ok)
+
+def sLoad (s : Sys) (id : String) : Sys × Outcome :=
+  match s.hub.get id with
+  | some _ => (s, .duplicatePort)
+  | none =>
+    match s.record id with
+    | none => (s, .noSuchPort)
+    | some r => ({ hub := loadRecord s.hub r r.enabled, stash := s.dropRecord id }, .ok)
+
+def sstep (s : Sys) : SOp → Sys × Outcome
+  | .hub (.addPort id) => sAdd s id
+  | .hub .reload =>                           -- restart: registered ports first (registration order), then the absent ones
+    ({ hub := reload ⟨s.hub.ports ++ s.stash⟩, stash := [] }, .ok)
+  | .hub (.restore entries) =>                -- PUT /ports clears every persisted port record (core.ports.reset)
+    ({ hub := (restore s.hub entries).1, stash := [] }, (restore s.hub entries).2)
+  | .hub (.assign id parsed) => ({ s with hub := (assign s.hub id parsed).1 }, (assign s.hub id parsed).2)
+  | .hub (.clear id) => ({ s with hub := (clear s.hub id).1 }, (clear s.hub id).2)
+  | .hub (.removePort id) => ({ s with hub := (removePort s.hub id).1 }, (removePort s.hub id).2)
+  | .hub (.setEnabled id v) => ({ s with hub := (setEnabled s.hub id v).1 }, (setEnabled s.hub id v).2)
+  | .unload id => sUnload s id
+  | .load id => sLoad s id
+
+def srun (s : Sys) (ops : List SOp) : Sys := ops.foldl (fun acc op => (sstep acc op).1) s
 
 end QtVerif.Deps
